@@ -893,7 +893,7 @@ time_zone::absolute_lookup TimeZoneInfo::LocalTime(
 // MakeTime() translation with a conversion-preserving +N * 400-year shift.
 time_zone::civil_lookup TimeZoneInfo::TimeLocal(const civil_second& cs,
                                                 year_t c4_shift) const {
-  assert(last_year_ - 400 < cs.year() && cs.year() <= last_year_);
+  assert(last_year_ - 400 <= cs.year() && cs.year() < last_year_);
   time_zone::civil_lookup cl = MakeTime(cs);
   if (c4_shift > seconds::max().count() / kSecsPer400Years) {
     cl.pre = cl.trans = cl.post = time_point<seconds>::max();
@@ -1007,8 +1007,10 @@ time_zone::civil_lookup TimeZoneInfo::MakeTime(const civil_second& cs) const {
       // After the last transition. If we extended the transitions using
       // future_spec_, shift back to a supported year using the 400-year
       // cycle of calendaric equivalence and then compensate accordingly.
-      if (extended_ && cs.year() > last_year_) {
-        const year_t shift = (cs.year() - last_year_ - 1) / 400 + 1;
+      // Note: last_year_ itself is also shifted back, as the first transition
+      // of the following (ungenerated) year may reach back into it.
+      if (extended_ && cs.year() >= last_year_) {
+        const year_t shift = (cs.year() - last_year_) / 400 + 1;
         return TimeLocal(YearShift(cs, shift * -400), shift);
       }
       const TransitionType& tt(transition_types_[tr->type_index]);
